@@ -18,7 +18,7 @@ EXTENDS Integers, Sequences, FiniteSets, TLC, Json, FnLib, DualLib
 
 CONSTANTS
     MaxVars,        \* 1..MaxVars plain variables x, y, z
-    MaxDer, MaxRxn, MaxIap, MaxIav, MaxSur,   \* max number of slots per kind
+    MaxDer, MaxRxn, MaxIap, MaxIav, MaxSur, MaxRo,   \* max number of slots per kind (MaxRo: readouts)
     MaxComps,       \* bound on the total number of slots
     Fns,            \* function names offered to slots
     UseData,        \* TRUE: a data set "dat" (only usable through dsum)
@@ -36,7 +36,7 @@ VARIABLES c, slots, i, cur
 vars == <<c, slots, i, cur>>
 NoCall == [fn |-> "none", args |-> <<>>]
 
-Kinds == {"der", "rxn", "iap", "iav", "sur"}
+Kinds == {"der", "rxn", "iap", "iav", "sur", "ro"}
 VarNames == <<"x", "y", "z">>
 VarInit  == <<2, 3, 5>>                \* distinct primes: mixed-up arguments show in the result
 NameOf(kind, j) ==
@@ -45,9 +45,10 @@ NameOf(kind, j) ==
       [] kind = "iap" -> <<"pa", "pb">>[j]
       [] kind = "iav" -> <<"xa", "xb">>[j]
       [] kind = "sur" -> <<"s", "u">>[j]
+      [] kind = "ro"  -> <<"ro1", "ro2">>[j]
 SurOuts(n) == IF n = "s" THEN <<"s1", "s2">> ELSE <<"u1", "u2">>
 
-KindOrder == <<"der", "rxn", "iap", "iav", "sur">>
+KindOrder == <<"der", "rxn", "iap", "iav", "sur", "ro">>
 
 RECURSIVE SlotsFrom(_, _)
 SlotsFrom(cnt, ki) ==
@@ -55,9 +56,9 @@ SlotsFrom(cnt, ki) ==
     ELSE [j \in 1..cnt[KindOrder[ki]] |-> [kind |-> KindOrder[ki], name |-> NameOf(KindOrder[ki], j)]]
          \o SlotsFrom(cnt, ki + 1)
 
-Total(cnt) == cnt["der"] + cnt["rxn"] + cnt["iap"] + cnt["iav"] + cnt["sur"]
+Total(cnt) == cnt["der"] + cnt["rxn"] + cnt["iap"] + cnt["iav"] + cnt["sur"] + cnt["ro"]
 
-MaxCount == [der |-> MaxDer, rxn |-> MaxRxn, iap |-> MaxIap, iav |-> MaxIav, sur |-> MaxSur]
+MaxCount == [der |-> MaxDer, rxn |-> MaxRxn, iap |-> MaxIap, iav |-> MaxIav, sur |-> MaxSur, ro |-> MaxRo]
 Counts == {cnt \in [Kinds -> 0..3] :
               /\ \A k \in Kinds : cnt[k] <= MaxCount[k]
               /\ Total(cnt) <= MaxComps
@@ -125,7 +126,7 @@ SurStMenu(n) ==
 PickFn ==
     /\ i <= Len(slots) /\ cur.fn = "none"
     /\ \E f \in Fns :
-          /\ (f = "dsum" => UseData /\ slots[i].kind # "sur")
+          /\ (f = "dsum" => UseData /\ slots[i].kind \notin {"sur", "ro"})   \* data sets are not visible to readouts
           /\ cur' = [fn |-> f, args |-> <<>>]
     /\ UNCHANGED <<c, slots, i>>
 
@@ -142,6 +143,8 @@ Commit ==
           \/ /\ s.kind = "rxn"
              /\ \E st \in StMenu :
                    c' = [c EXCEPT !.rxn = @ @@ (s.name :> [fn |-> cl.fn, args |-> cl.args, st |-> st])]
+          \/ /\ s.kind = "ro"          \* readouts are evaluated on demand, after everything else
+             /\ c' = [c EXCEPT !.ro = @ @@ (s.name :> cl)]
           \/ /\ s.kind = "iap"
              /\ c' = [c EXCEPT !.pars = @ @@ (s.name :> [k |-> "ia", fn |-> cl.fn, args |-> cl.args])]
           \/ /\ s.kind = "iav"
@@ -179,6 +182,7 @@ PredictC(cc, p) ==
     [y |-> p.y, t |-> p.t, default |-> p.default,
      jac    |-> IF WithJac THEN JacAt(cc, p.y, p.t) ELSE <<>>,
      args   |-> [n \in M!Reported(cc) |-> M!ArgsAt(cc, p.y, p.t)[n]],
+     ro     |-> M!Readouts(cc, M!ArgsAt(cc, p.y, p.t)),
      rhs    |-> M!Rhs(cc, p.y, p.t),
      fluxes |-> M!Fluxes(cc, p.y, p.t),
      stoich |-> M!Stoichiometry(cc, p.y, p.t)]
@@ -193,6 +197,8 @@ Scenario ==
           init |-> M!InitialValues(c), parvals |-> M!ParameterValues(c),
           static |-> M!Static(c),
           dynder |-> DOMAIN c.der \ M!Static(c),
+          surflux |-> M!SurFluxes(c),
+          survars |-> UNION {M!SeqRange(c.sur[s].outs) : s \in DOMAIN c.sur} \ M!SurFluxes(c),
           pts |-> [j \in DOMAIN Points |-> Predict(Points[j])],
           pts_alt |-> [j \in 2..3 |-> PredictC(AltContent, Points[j])]]
     ELSE [c |-> c, kinds |-> M!OutcomeKinds(c)]
